@@ -154,6 +154,7 @@ type C13Request struct {
 	NS, Name       string
 	ArgsAnnotation string
 	Nets           []C13Net // the pod's networks in annotation order; empty = one default network without annotation
+	ENI            *C13Net  // if set, galaxy.json declares this network as ENIIPNetwork: a pod without networks annotation that requests an ENI IP (every C13 pod does) gets it instead of the defaults; with an annotation it is ignored
 	JSONForm       bool     // networks annotation in JSON form (comma list otherwise)
 }
 
@@ -173,11 +174,24 @@ func AddForC13(rq C13Request) (invs []C13Invocation, status int, reply string, i
 	s := core.NewSim(core.ReplayChoices(0, nil))
 	s.MaxSteps = 20000
 	cfg := &Config{Prop: "C13", EphLo: 32768, EphHi: 32773, ScriptSeed: 1}
-	p := &PodDef{Idx: 0, NS: rq.NS, Name: rq.Name, KubeIf: "eth0", Annotations: map[string]string{annArgs: rq.ArgsAnnotation}, Sandboxes: 1, AnnForm: "none"}
+	// galaxy-ipam only handles pods that request the ENI-IP resource: the pod carries it
+	p := &PodDef{Idx: 0, NS: rq.NS, Name: rq.Name, KubeIf: "eth0", Annotations: map[string]string{annArgs: rq.ArgsAnnotation}, Sandboxes: 1, AnnForm: "none",
+		WantENI: true, NContainers: 1}
+	if rq.ENI != nil {
+		nd := &NetDef{Name: rq.ENI.Name, Type: rq.ENI.Type, HasName: true, Form: "json", Version: "0.3.1", Extra: map[string]interface{}{}}
+		if rq.ENI.IPAM {
+			nd.Extra["ipam"] = map[string]interface{}{"type": "host-local", "subnet": "172.30.0.0/24"}
+		}
+		cfg.Nets = append(cfg.Nets, nd)
+		cfg.ENINet = rq.ENI.Name
+	}
 	if len(rq.Nets) == 0 {
-		cfg.Nets = []*NetDef{{Name: "galaxy-k8s-vlan", Type: "galaxy-k8s-vlan", HasName: false, Form: "json", Version: "0.2.0", Extra: map[string]interface{}{}}}
+		cfg.Nets = append(cfg.Nets, &NetDef{Name: "galaxy-k8s-vlan", Type: "galaxy-k8s-vlan", HasName: false, Form: "json", Version: "0.2.0", Extra: map[string]interface{}{}})
 		cfg.DefaultNets = []string{"galaxy-k8s-vlan"}
 		p.Expect = []ExpNet{{Net: "galaxy-k8s-vlan", Type: "galaxy-k8s-vlan", IfName: "eth0"}}
+		if rq.ENI != nil {
+			p.Expect = []ExpNet{{Net: rq.ENI.Name, Type: rq.ENI.Type, IfName: "eth0"}}
+		}
 	} else {
 		var items []string
 		var elems []map[string]interface{}
